@@ -1654,3 +1654,98 @@ Proof.
   - apply (chunks_matching_sub su flt (su_chunks su) [] cis Hc ND).
   - unfold total_turns. lia.
 Qed.
+
+(* ---- an end-to-end instance: a file written by the Python writer model ---- *)
+Definition ex_opts : pwopts :=
+  {| po_chunk_size := 60; po_idx_att := true; po_idx_chunk := true; po_idx_msg := true; po_idx_md := true;
+     po_repeat_channels := true; po_repeat_schemas := true; po_chunking := true; po_statistics := true;
+     po_summary_offsets := true; po_crcs := true; po_data_crcs := true |}.
+Definition ex_calls : list pcall :=
+  [PcStart [] []; PcChannel [x74] [] 0 [];
+   PcMessage 1 5 [x61] 0 0; PcMessage 1 20 [x62] 0 1; PcMessage 1 10 [x63] 0 2; PcMessage 1 30 [x64] 0 3;
+   PcMessage 1 7 [x65] 0 4; PcMessage 1 15 [x66] 0 5; PcFinish].
+Definition ex_pyfile : bytes := match py_write ex_opts ex_calls with POk b => b | _ => [] end.
+Definition ex_pysu : summary := match sk_get_summary ex_pyfile with POk (Some su) => su | _ => empty_summary end.
+Definition ex_pycis : list chunkindex :=
+  match chunks_matching ex_pysu ex_flt (su_chunks ex_pysu) [] with POk l => l | _ => [] end.
+
+Example ex_py_summary : sk_get_summary ex_pyfile = POk (Some ex_pysu).
+Proof. vm_compute. reflexivity. Qed.
+Example ex_py_chunks : su_chunks ex_pysu <> [].
+Proof. vm_compute. discriminate. Qed.
+Example ex_py_matching : chunks_matching ex_pysu ex_flt (su_chunks ex_pysu) [] = POk ex_pycis.
+Proof. vm_compute. reflexivity. Qed.
+Example ex_py_nodup : NoDup (map ci_offset (su_chunks ex_pysu)).
+Proof.
+  vm_compute. repeat constructor; simpl; intros H; repeat (destruct H as [H|H]; try discriminate H); auto.
+Qed.
+Example ex_py_sound : forall c, In c ex_pycis -> chunk_sound ex_pyfile true ex_pysu ex_flt false c.
+Proof.
+  intros c Hc.
+  let v := eval vm_compute in ex_pycis in
+    assert (E : ex_pycis = v) by (vm_compute; reflexivity); rewrite E in Hc; clear E.
+  in_cases Hc.
+  all: match goal with |- chunk_sound ?f ?v ?s ?fl _ ?c =>
+         exists (match chunk_items f v s fl c with Some its => its | None => [] end) end.
+  all: split; [vm_compute; reflexivity|vm_compute; repeat constructor; intro H; discriminate H].
+Qed.
+Example ex_py_fuel : (length (all_items ex_pyfile true ex_pysu ex_flt ex_pycis) < 2 * length ex_pyfile + 8)%nat.
+Proof. vm_compute. lia. Qed.
+Example ex_py_run :
+  ex_seqs (sk_iter_messages ex_pyfile true ex_flt true false)
+  = ([(5, 0); (7, 4); (10, 2); (15, 5); (20, 1); (30, 3)]%N, EStop).
+Proof. vm_compute. reflexivity. Qed.
+
+(* ---- reading the conclusions ---- *)
+Lemma parent_div i : parent i = ((i - 1) / 2)%nat.
+Proof. unfold parent. apply Nat.div2_div. Qed.
+
+Lemma heap_lt_div lt dflt h :
+  heap_lt lt dflt h <->
+  (forall i, (0 < i)%nat -> (i < length h)%nat -> lt (nth i h dflt) (nth ((i - 1) / 2) h dflt) = false).
+Proof. unfold heap_lt. split; intros H i Hi0 Hi; specialize (H i Hi0 Hi); rewrite parent_div in *; exact H. Qed.
+
+(* what "sorted for q_lt" says about a list of message items and about the triples returned *)
+Lemma full_sorted_consequences r out :
+  StronglySorted (fun a b => q_lt r b a = false) out ->
+  StronglySorted (msg_key_le r) out /\ StronglySorted (t_le r) (q_triples out).
+Proof.
+  intros H. split.
+  - eapply StronglySorted_impl; [|exact H]. intros a b; apply q_le_msg_key.
+  - eapply sorted_triples; [|exact H]. intros a b; apply q_nlt_log_le.
+Qed.
+
+Lemma chunk_sound_forward file validate su flt c :
+  chunk_sound file validate su flt false c <->
+  exists its, chunk_items file validate su flt c = Some its /\
+              forall t o i, In (QMsg t o i) its -> (ci_start c <= t_log t)%N.
+Proof.
+  unfold chunk_sound. split; intros (its & H & F); exists its; split; auto.
+  - intros t o i Hm. rewrite Forall_forall in F. exact (F _ Hm).
+  - apply Forall_forall. intros m Hm.
+    destruct (chunk_items_shape _ _ _ _ _ _ _ H Hm) as (t & j & ->). exact (F _ _ _ Hm).
+Qed.
+
+Lemma chunk_sound_reverse file validate su flt c :
+  chunk_sound file validate su flt true c <->
+  exists its, chunk_items file validate su flt c = Some its /\
+              forall t o i, In (QMsg t o i) its -> (t_log t <= ci_end c)%N.
+Proof.
+  unfold chunk_sound. split; intros (its & H & F); exists its; split; auto.
+  - intros t o i Hm. rewrite Forall_forall in F. exact (F _ Hm).
+  - apply Forall_forall. intros m Hm.
+    destruct (chunk_items_shape _ _ _ _ _ _ _ H Hm) as (t & j & ->). exact (F _ _ _ Hm).
+Qed.
+
+(* a simpler sufficient condition for the reverse tie order: record ends are distinct and no chunk
+   record ends exactly where another one starts *)
+Lemma rev_gap_conditions file validate su flt cis :
+  (forall c c', In c cis -> In c' cis ->
+     (ci_offset c + ci_length c = ci_offset c' + ci_length c')%N -> c = c') ->
+  (forall c c', In c cis -> In c' cis -> c <> c' -> (ci_offset c + ci_length c <> ci_offset c')%N) ->
+  rev_chunks_distinct cis /\ rev_no_adjacent_tie file validate su flt cis.
+Proof.
+  intros H1 H2. split.
+  - intros c c' Hc Hc' _ E. apply H1; auto.
+  - intros c c' t j Hc Hc' Hne _ (_ & E). exact (H2 c c' Hc Hc' Hne E).
+Qed.
